@@ -128,3 +128,72 @@ func FrameType(frame []byte) string {
 	}
 	return string(frame[:4])
 }
+
+// ServiceTypeID returns the numeric id of the service type carried by the
+// first chunk of a MSG/OPN/CLO frame in security mode None (plaintext):
+// 8 byte UACP header, 4 byte channel id, security header, 8 byte sequence
+// header, then the ExpandedNodeId of the body type.
+func ServiceTypeID(frame []byte) (uint16, bool) {
+	if len(frame) < 12 {
+		return 0, false
+	}
+	off := 12
+	switch string(frame[:3]) {
+	case "MSG", "CLO":
+		off += 4 // token id
+	case "OPN":
+		// policy uri, sender cert, receiver thumbprint (each i32 length + bytes)
+		for i := 0; i < 3; i++ {
+			if len(frame) < off+4 {
+				return 0, false
+			}
+			n := int32(binary.LittleEndian.Uint32(frame[off:]))
+			off += 4
+			if n > 0 {
+				off += int(n)
+			}
+		}
+	default:
+		return 0, false
+	}
+	off += 8 // sequence header
+	if len(frame) < off+4 {
+		return 0, false
+	}
+	switch frame[off] {
+	case 1: // four byte node id: ns byte, u16 id
+		return binary.LittleEndian.Uint16(frame[off+2:]), true
+	case 0: // two byte
+		return uint16(frame[off+1]), true
+	}
+	return 0, false
+}
+
+// SeqHeader returns sequence number and request id of a None-mode chunk.
+func SeqHeader(frame []byte) (seq, reqID uint32, ok bool) {
+	if len(frame) < 12 {
+		return 0, 0, false
+	}
+	off := 12
+	switch string(frame[:3]) {
+	case "MSG", "CLO":
+		off += 4
+	case "OPN":
+		for i := 0; i < 3; i++ {
+			if len(frame) < off+4 {
+				return 0, 0, false
+			}
+			n := int32(binary.LittleEndian.Uint32(frame[off:]))
+			off += 4
+			if n > 0 {
+				off += int(n)
+			}
+		}
+	default:
+		return 0, 0, false
+	}
+	if len(frame) < off+8 {
+		return 0, 0, false
+	}
+	return binary.LittleEndian.Uint32(frame[off:]), binary.LittleEndian.Uint32(frame[off+4:]), true
+}
